@@ -7,7 +7,7 @@ from props import fam_sym
 
 MANIFEST = dict(
     technique='Coq proof of the whole placement function get_f_phi_on_grid (soundness and completeness of the grid contents, slot injectivity, phase algebra) + exact differential check of placement + O(N^2) direct-sum oracles on gemmi',
-    text='Theorems: indices that fit the grid never share a slot; every coefficient written by get_f_phi_on_grid (symmetry mate, Friedel flip to l>=0, phase shift) is the true value of the index it stands for, for every group and any symmetry-consistent phase function. WHOLE FUNCTION (loop with first-writer-wins + add_friedel_mates, both axis orders, half-l and full grids, any reflection list): sound - every entry left in the grid sits in the slot of an index k = +-(hR) of the orbit of the reflection it came from, k fits the grid, and the stored phase is the true phase of k; complete - the slot of every symmetry image that fits is filled, and every slot of the region add_friedel_mates visits whose Friedel-mate slot is filled is filled. The placement model (has_index, index_n, half-l flip, ZYX swap, first-writer-wins, add_friedel_mates) is compared slot by slot with gemmi for every table row with integer-coded amplitudes/phases. The analytic claims are decided on the implementation by oracles: FFT map vs direct Fourier sum at every grid point, invariance under every operation, transform_map_to_f_phi vs direct sum at every held index, prepare_asu_data, inverse transform, half vs full, XYZ vs ZYX, even and odd sizes; transform_f_phi_to_map at several sampling rates and minimum sizes: the size it picks holds every index, respects the rate, suits the space group and the FFT, and its map is bit-identical to the two-step route; exact_size accepted iff compatible.',
+    text='prepare_asu_data (Fft/AsuLookup.v): the slot read for an index is the placement slot of that index or, on a half-l grid for l < 0, of its Friedel mate (value conjugated), inside the grid for every index held; compared with gemmi on P 1 grids whose slots hold their own number. Theorems: indices that fit the grid never share a slot; every coefficient written by get_f_phi_on_grid (symmetry mate, Friedel flip to l>=0, phase shift) is the true value of the index it stands for, for every group and any symmetry-consistent phase function. WHOLE FUNCTION (loop with first-writer-wins + add_friedel_mates, both axis orders, half-l and full grids, any reflection list): sound - every entry left in the grid sits in the slot of an index k = +-(hR) of the orbit of the reflection it came from, k fits the grid, and the stored phase is the true phase of k; complete - the slot of every symmetry image that fits is filled, and every slot of the region add_friedel_mates visits whose Friedel-mate slot is filled is filled. The placement model (has_index, index_n, half-l flip, ZYX swap, first-writer-wins, add_friedel_mates) is compared slot by slot with gemmi for every table row with integer-coded amplitudes/phases. The analytic claims are decided on the implementation by oracles: FFT map vs direct Fourier sum at every grid point, invariance under every operation, transform_map_to_f_phi vs direct sum at every held index, prepare_asu_data, inverse transform, half vs full, XYZ vs ZYX, even and odd sizes; transform_f_phi_to_map at several sampling rates and minimum sizes: the size it picks holds every index, respects the rate, suits the space group and the FFT, and its map is bit-identical to the two-step route; exact_size accepted iff compatible.',
     note='Trusted: Coq kernel + vm_compute; translator; extraction; harness (double-precision direct sums, tolerance 2e-4 of max density). No axioms. pocketfft and float rounding are outside the model (oracle only).')
 
 GRIDS = {
@@ -66,6 +66,15 @@ def run(chk):
             lines.append('o_tfm\t%d %d %d %d %d %d %d %d' % (i, seed + 3, rng.choice([2, 3, 4]), rng.choice([0, 12, 15, 20, 30, 41]),
                                                                rng.choice([0, 0, 5, 16]), rng.choice([0, 0, 7]), rng.choice([0, 0, 9, 24]),
                                                                rng.randint(0, 1)))
+    # index arithmetic of prepare_asu_data (model Fft/AsuLookup.v): P 1 grids with unequal dimensions, half-l and full
+    for _ in range(200 if quick else 8000):
+        nu, nv = rng.choice([1, 2, 3, 4, 5, 6, 8, 9, 12]), rng.choice([1, 2, 3, 4, 6, 7, 8, 10])
+        half = rng.randint(0, 1)
+        nw = rng.choice([1, 2, 3, 4, 5, 7]) if half else rng.choice([1, 2, 4, 5, 6, 8, 9])
+        hk = []
+        for _ in range(rng.randint(1, 10)):
+            hk += [rng.randint(-(nu // 2) - 1, nu // 2 + 1), rng.randint(-(nv // 2) - 1, nv // 2 + 1), rng.randint(-nw, nw)]
+        lines.append('alook\t%d %d %d %d %s' % (nu, nv, nw, half, ' '.join(map(str, hk))))
     # grids with ONE point along an axis (all reflections in a plane; length-1 transforms inside the FFT), P 1 and P 1 21 1
     for (row_, g) in [(0, (1, 6, 8)), (0, (6, 1, 8)), (0, (1, 1, 8)), (0, (1, 6, 7)), (3, (1, 6, 8)), (0, (6, 8, 1))]:
         for half in (0, 1):
